@@ -203,14 +203,15 @@ def simulate(script, chan, knobs, seed_label):
 def windows_of(dec):
   """merge display-change events into transmission windows [(first, last, state after)]"""
   wins = []
-  for ev, st, ru in zip(dec.events, dec.states, dec.states_reused):
+  for ev, st, ru, base in zip(dec.events, dec.states, dec.states_reused, dec.states_base):
     if wins and ev["first"] - wins[-1][1] < MERGE_GAP:
       wins[-1][1] = ev["last"]
       wins[-1][2] = st
       wins[-1][3].append(ev["kind"])
       wins[-1][5] = ru
+      wins[-1][6] = base
     else:
-      wins.append([ev["first"], ev["last"], st, [ev["kind"]], None, ru])
+      wins.append([ev["first"], ev["last"], st, [ev["kind"]], None, ru, base])
   return wins
 
 
@@ -271,7 +272,7 @@ def check_run(knobs, script, stats, log, seed_label):
 
   def allowed(f):
     """is frame f inside the window of some display change?  window = [first - dups before it in its line, last + 2]"""
-    for _first, last, _st, _k, lower, _ru in wins:
+    for _first, last, _st, _k, lower, _ru, _base in wins:
       if lower <= f <= last + 2:
         return True
     return False
@@ -310,6 +311,7 @@ def check_run(knobs, script, stats, log, seed_label):
       hi = (w[4] - 1) if w is not None else prev_last + 40
       state = wins[i - 1][2]
     reused = [] if i == 0 else wins[i - 1][5]
+    base608 = 15 if i == 0 else wins[i - 1][6]
     if w is not None:
       prev_last = w[1]
     if hi - lo < 1:
@@ -343,6 +345,13 @@ def check_run(knobs, script, stats, log, seed_label):
     if [r for r, _c in g] != [r for r, _c in exp_cmp]:
       raise core.Violation("display-differs:%s:rows" % (md or "none"),
                            "frame %d (t=%s): reader rows %s, reference rows %s\nreader %s\n%s" % (fmid, t, [r for r, _ in g], [r for r, _ in exp_cmp], _show(g), text[:2500]))
+    if rollup and base608 != 15 and exp_cmp:
+      # the display equals the reference anchored at row 15, but a 608 decoder shows this window with its base on the PAC's row
+      stats.count("probe.rollup_base_row_not_15")
+      v = core.Violation("display-differs:roll:rows:base-row-forced-to-15",
+                         "frame %d (t=%s): reader rows %s; a 608 decoder shows the window with base row %d\n%s" % (fmid, t, [r for r, _ in g], base608, text[:1500]))
+      if v.signature not in [x.signature for x in soft]:
+        soft.append(v)
     seq.append(core.small_hash(_show(exp_cmp)))
   log.add("display-seq", len(wins), seq[:50])
   states = []
@@ -519,7 +528,7 @@ def describe():
     "assumptions": [
       "scripts follow the three protocols on channel 1; style changes to and from roll-up are clean (EDM+ENM and idle time first); text of one row is sent contiguously",
       "display is compared at quiescent frames only (>= 3 frames away from any display change of the reference); inside transmission windows only the change times are judged",
-      "row ends are stripped and runs of blanks collapsed; in roll-up the base row is 15 on both sides (the reader documents that it forces it, the reference ignores the row of PACs in roll-up mode)",
+      "row ends are stripped and runs of blanks collapsed; in roll-up the display is compared anchored at base row 15 on both sides (the reader forces it); the reference also tracks the base row a 608 decoder would use, and every roll-up display whose base row is not 15 is reported under the open known finding base-row-forced-to-15",
       "characters whose Unicode identity is debatable are not generated (C17 territory); background attribute codes, flash, DER and the text-mode codes are outside the statement and not generated",
       "rows that are re-addressed while they hold content are compared too, but their mismatches are classified separately (open known findings)",
     ],
